@@ -21,7 +21,7 @@ RULE = ("sequences of 1-30 primaries against host and equipment handlers: S/F dr
         "(C03 generator), empty, truncated, random bytes, wrong item type; with and without W-bit; user callbacks registered "
         "through register_stream_function that return a secondary, raise, or are unregistered again (also after they served "
         "a primary); a primary that reuses the system bytes of a request of the handler that ran into T3; distinct by "
-        "(role, S/F, W, body class, body bytes); non-trivial when the W-bit is set or a callback exists")
+        "(role, S/F, W, body class, body bytes); non-trivial when the W-bit is set or a callback exists; plus: a quarter of the sequences run on a handler that was disabled and enabled again once or twice")
 ASSUMPTIONS = ["a library callback that does not read the body may answer a malformed body with its normal secondary: the "
                "allowed replies to a handled primary are {S,F+1} and {S,0}", "a failing callback on a message without W-bit may "
                "or may not emit SxF0 (the statement constrains only the no-error case)",
